@@ -324,11 +324,16 @@ Definition serve (s : rspec) (cfg : api_cfg) (rq : request) : outcome :=
   if c_sf cfg && str_eqb (q_path rq) (bp ++ slash :: s_spec_name s)
   then {| status := 200; trace := [SpecFileEv] |}
   else
-    match route_root (c_cors cfg) bp (gen_tree s) (q_path rq) (q_method rq) with
+    (* the route functions return a handler for a preflight entry whether or not
+       a CORS handler is installed: the CORS handler, or the not-found handler
+       (`return rt.notFound(), "", false`), so that the search stops there *)
+    match route_root true bp (gen_tree s) (q_path rq) (q_method rq) with
     | None => {| status := 404; trace := if c_nf cfg then [NotFoundEv] else [] |}
     | Some (RCors it) =>
       match i_cors it with
-      | Some (ms, hs) => {| status := 204; trace := [CorsEv ms hs] |}
+      | Some (ms, hs) =>
+        if c_cors cfg then {| status := 204; trace := [CorsEv ms hs] |}
+        else {| status := 404; trace := if c_nf cfg then [NotFoundEv] else [] |}
       | None => {| status := 404; trace := [] |}
       end
     | Some (RHandler it op) =>
